@@ -12,7 +12,7 @@ from rv.harness import mod, monitored_call, present
 import random
 
 LEVEL = "exploration"
-RULE = ("ilp on n <= 6 items (values <= 200), 1-4 bins, five objectives; option classes: copies (one number 0/1/2 or per-item list), constraints smallest==c / largest<=c / smallest>=c with c below, at and "
+RULE = ("ilp on n <= 6 items (values <= 200), 1-4 bins, five objectives; option classes: copies (one number 0/1/2, a per-item list, or a per-item dict keyed by item index written in shuffled insertion order), constraints smallest==c / largest<=c / smallest>=c with c below, at and "
         "above feasibility (infeasible ones must raise ValueError), weights (uniform and non-uniform from {1,2,3,5,10,1/2}), plain; non-trivial = constraint binding (constrained optimum differs from the "
         "unconstrained one) or infeasible, or copies not all 1, or weights not all equal; distinct on the full call")
 ASSUMPTIONS = ["values <= 200 (the property's solver envelope); a mismatch that disappears with CBC preprocessing off is inconclusive(solver)",
@@ -51,6 +51,9 @@ def call(case, ctx, nopre=False):
     kw = {"objective": A.objective(*case["objective"])}
     if case.get("copies") is not None:
         kw["copies"] = case["copies"]
+        if case.get("copies_dict_order") is not None:
+            # per-item copies given as a dict {item index: copies}, written in an arbitrary insertion order
+            kw["copies"] = {i: case["copies"][i] for i in case["copies_dict_order"]}
     if case.get("weights") is not None:
         kw["weights"] = list(case["weights"])
     if case.get("constraint") is not None:
@@ -198,8 +201,10 @@ def draw(rng):
                 case["copies"][rng.randrange(n)] = 1
         if isinstance(case["copies"], int) and case["copies"] == 2 and n > 4:
             case["values"] = vals[:4]
-            if isinstance(case["copies"], list):
-                case["copies"] = case["copies"][:4]
+        if isinstance(case["copies"], list) and rng.random() < 0.5:
+            order = list(range(len(case["copies"])))
+            rng.shuffle(order)
+            case["copies_dict_order"] = order
     if "constraint" in cls:
         cp = case.get("copies")
         cpl = [1] * len(case["values"]) if cp is None else ([cp] * len(case["values"]) if isinstance(cp, int) else cp)
